@@ -3,7 +3,8 @@ from framework import Func
 from bip_utils import Base58Encoder, Base58Decoder, Base58Alphabets
 from bip_utils import Base58XmrEncoder, Base58XmrDecoder
 from bip_utils.utils.misc import BytesUtils, IntegerUtils
-from modeldrv import Z
+from modeldrv import Z, T
+from bip_utils.bech32.bech32_base import Bech32BaseUtils
 
 ALPHS = [Base58Alphabets.BITCOIN, Base58Alphabets.RIPPLE]
 
@@ -404,6 +405,111 @@ def gen_intbytes(ctx):
         ctx.run("int_from_binstr", ["".join(bs)], "mutated")
 
 
+# ------------------------------------------------------------------ Bech32 ConvertBits
+def regroup_ref(data, fb, tb, pad):
+    """Reference regrouping on a bit string (BIP-173 convertbits semantics)."""
+    if any(v < 0 or v >> fb for v in data):
+        return None
+    bits = "".join(format(v, "0%db" % fb) for v in data) if fb else ""
+    full, rem = divmod(len(bits), tb)
+    out = [int(bits[i * tb:(i + 1) * tb], 2) for i in range(full)]
+    tail = bits[full * tb:]
+    if pad:
+        if tail:
+            out.append(int(tail.ljust(tb, "0"), 2))
+    elif len(tail) >= fb or (tail and int(tail, 2) != 0):
+        return None
+    return out
+
+
+def d_to32(a):
+    data, = a
+    data = list(data)
+    try:
+        r = Bech32BaseUtils.ConvertToBase32(data)
+    except ValueError:
+        return None if any(v >> 8 for v in data) else "ConvertToBase32 rejected bytes %r" % (data,)
+    if r != regroup_ref(data, 8, 5, True):
+        return "ConvertToBase32(%r) = %r, expected %r" % (data, r, regroup_ref(data, 8, 5, True))
+    back = Bech32BaseUtils.ConvertFromBase32(r)
+    return None if back == data else "ConvertFromBase32(ConvertToBase32(b)) = %r != %r" % (back, data)
+
+
+def d_from32(a):
+    data, = a
+    data = list(data)
+    ref = regroup_ref(data, 5, 8, False)
+    try:
+        r = Bech32BaseUtils.ConvertFromBase32(data)
+    except ValueError:
+        return None if ref is None else "ConvertFromBase32 rejected canonical %r" % (data,)
+    if ref is None or r != ref:
+        return "ConvertFromBase32(%r) = %r, expected %r" % (data, r, ref)
+    again = Bech32BaseUtils.ConvertToBase32(r)
+    return None if again == data else "accepted 5-bit data %r re-encodes to %r" % (data, again)
+
+
+def d_convert_bits(a):
+    data, fb, tb, pad = a
+    r = Bech32BaseUtils.ConvertBits(list(data), fb, tb, bool(pad))
+    ref = regroup_ref(list(data), fb, tb, bool(pad))
+    return None if r == ref else "ConvertBits(%r, %d, %d, %r) = %r, expected %r" % (list(data), fb, tb, bool(pad), r, ref)
+
+
+def _optlist(r):
+    return [] if r is None else [T(r)]
+
+
+FUNCS.update({
+    "to_base32": Func(model=lambda m, a: m.call("to_base32", a[0]),
+                      impl=lambda a: T(Bech32BaseUtils.ConvertToBase32(list(a[0]))), direct=d_to32),
+    "from_base32": Func(model=lambda m, a: m.call("from_base32", a[0]),
+                        impl=lambda a: T(Bech32BaseUtils.ConvertFromBase32(list(a[0]))), direct=d_from32),
+    "convert_bits": Func(model=lambda m, a: m.call("convert_bits", a[0], a[1], a[2], a[3]),
+                         impl=lambda a: _optlist(Bech32BaseUtils.ConvertBits(list(a[0]), a[1], a[2], bool(a[3]))),
+                         direct=d_convert_bits),
+})
+
+
+def gen_convertbits(ctx):
+    rng = ctx.rng
+    two = range(65536) if not ctx.quick else list(range(0, 300)) + [rng.randrange(65536) for _ in range(400)]
+    small = [b""] + [bytes([x]) for x in range(256)] + [x.to_bytes(2, "big") for x in two]
+    for b in small:
+        ctx.run("to_base32", [b], "len0-2", trivial=(b == b""))
+    # all 5-bit strings of length 0..2 (32 + 32*32) and a slice of length 3..4, strict direction
+    ctx.run("from_base32", [b""], "len0", trivial=True)
+    for x in range(32):
+        ctx.run("from_base32", [bytes([x])], "sym1")
+        for y in range(32):
+            ctx.run("from_base32", [bytes([x, y])], "sym2")
+    for _ in range(ctx.n(400, 8000)):
+        n = rng.choice([3, 4, 5, 7, 8, 9, 13, 16, 32, 33, 52, 53])
+        l = bytes(rng.randrange(32) for _ in range(n))
+        ctx.run("from_base32", [l], "rand5")
+        # force zero padding so that acceptance is also sampled at every length
+        good = Bech32BaseUtils.ConvertToBase32(bytes(rng.randrange(256) for _ in range(n)))
+        ctx.run("from_base32", [bytes(good)], "valid")
+        bad = list(good)
+        bad[-1] ^= 1 << rng.randrange(5)
+        ctx.run("from_base32", [bytes(bad)], "padbit")
+        ctx.run("from_base32", [bytes(good) + bytes([0])], "overlong")
+    # out-of-range symbols
+    for v in (32, 33, 255, 256, 1 << 40):
+        ctx.run("from_base32", [[1, v, 2]], "range")
+        ctx.run("to_base32", [[1, v + 224, 2]], "range")
+    ctx.note_exhaustive("ConvertToBase32: all byte strings of length 0..1 (2 in thorough); ConvertFromBase32: all "
+                        "5-bit symbol strings of length 0..2 (32 + 32x32)")
+    for _ in range(ctx.n(300, 5000)):
+        b = rand_bytes(rng, 90)
+        ctx.run("to_base32", [b], "rand")
+        fb, tb = rng.choice([(8, 5), (5, 8), (8, 11), (11, 8), (1, 8), (8, 1), (3, 7), (7, 3), (6, 6), (13, 4), (4, 13)])
+        data = [rng.randrange(1 << fb) for _ in range(rng.randrange(12))]
+        if rng.randrange(8) == 0 and data:
+            data[rng.randrange(len(data))] = (1 << fb) + rng.randrange(5)
+        ctx.run("convert_bits", [data, fb, tb, rng.randrange(2)], "generic")
+
+
 def rand_bytes(rng, maxlen=200):
     k = rng.choice([0, 0, 1, 2, 3])
     n = rng.choice([0, 1, 2, 3, 4, 5, 8, 16, 20, 21, 25, 32, 33, 37, 64, 65, 78, 82, rng.randrange(maxlen)])
@@ -414,6 +520,7 @@ def generate(ctx):
     gen_b58(ctx)
     gen_xmr(ctx)
     gen_intbytes(ctx)
+    gen_convertbits(ctx)
 
 
 def gen_b58(ctx):
